@@ -400,7 +400,9 @@ fn unitconvert(rep: &Report) {
                 json!({"kind": "unitconvert", "definition": def, "error": e}),
             ),
             Ok(Ok((n, got))) => {
-                if n != 1 || !close4(got, exp) {
+                // (the ratio of the two factors, rounded once, times the value: the same bits. In particular a
+                // conversion between a unit and itself is the identity, and yd to ft is exactly 3)
+                if n != 1 || !same4(got, exp) {
                     return rep.violation(
                         "unitconvert: result is not the ratio of the published unit factors",
                         json!({"kind": "unitconvert", "definition": def, "observed": got, "expected": exp}),
